@@ -68,12 +68,21 @@ def generate_ops(rng, cfg, spec, tier) -> list[dict]:
     # bias: restart right after fit
     if rng.random() < 0.5:
         ops.append(restart("m"))
+    def tq(f):
+        fx = cfg["fits"][f]
+        return {"q": "transform", "X": fx["X"]} if spec.family == "single" else {"q": "transform", "X": fx["X"], "Y": fx["Y"]}
     if cfg.get("focus") == "rotator" and cfg["rot_params"] and not dataless["m"]:
         ops.append({"op": "rot_fit"})
         has_rot = True
+        used = spec.has_transform and rng.random() < 0.5
+        if used:
+            # the rotator is *used* before it is stored: whatever transform() keeps on the object is not durable state
+            ops.append({"op": "query", "target": "r", "q": tq(cur)})
         ops.append(restart("r"))
-        if rng.random() < 0.5:
+        if rng.random() < (0.8 if used else 0.5):
             ops.append({"op": "compute", "target": "r"})
+            if used:
+                ops.append({"op": "query", "target": "r", "q": tq(cur)})
     while len(ops) < n:
         r = rng.random()
         tgt = "r" if (has_rot and rng.random() < 0.45) else "m"
